@@ -19,9 +19,13 @@ func ReadArguments(reader io.Reader) (args []string, eof bool, err error) {
 		isSeparated = true
 		buf         = make([]byte, 1)
 		ch          rune
+		pending     = false
 	)
 	for {
-		if _, err = reader.Read(buf); err != nil {
+		if pending {
+			// the byte that followed a heredoc terminator: it belongs to the rest of the command
+			pending = false
+		} else if _, err = reader.Read(buf); err != nil {
 			if err == io.EOF {
 				return args, true, nil
 			}
@@ -93,19 +97,30 @@ func ReadArguments(reader io.Reader) (args []string, eof bool, err error) {
 				return nil, false, goaterr.Errorf("insert EOF sequence after open multiline argument by '=<<' sequence'")
 			}
 			eof = "\n" + eof
-			// read data
+			// read data: the text ends at a line that BEGINS with the marker followed by a blank, a
+			// newline or the end of the input (the line right after the opening one included, so the
+			// text may be empty); the byte after the marker is handed back to the command loop
+			value = "\n"
 			for {
 				if _, err = reader.Read(buf); err != nil {
+					if err == io.EOF && strings.HasSuffix(value, eof) {
+						value = base + strings.Trim(strings.TrimPrefix(value[:len(value)-len(eof)], "\n"), " \t")
+						args[len(args)-1] = value
+						return args, true, nil
+					}
 					return nil, err == io.EOF, goaterr.Errorf(err.Error())
 				}
-				value += string(buf[:1])
-				if strings.HasSuffix(value, eof) {
+				if strings.HasSuffix(value, eof) && (buf[0] == ' ' || buf[0] == '\t' || buf[0] == '\n') {
 					value = value[:len(value)-len(eof)]
+					pending = true
 					break
 				}
+				value += string(buf[:1])
 			}
-			value = base + strings.Trim(value, " \t")
+			value = base + strings.Trim(strings.TrimPrefix(value, "\n"), " \t")
 			args[len(args)-1] = value
+			isEscaped = false
+			isSeparated = false
 			continue
 		}
 		*current += string(buf[:1])
